@@ -322,6 +322,36 @@ let hex_of_n (x : n) : String.t =
       | [a] -> a :: acc in
     String.concat "" (List.map (fun d -> String.make 1 "0123456789abcdef".[d]) (nibbles l []))
 
+(* table: Q seq idx r|h op key arg ... -> Q seq idx <result of Client/Table.v tab_apply / set_apply + lookup / memz>
+   the response table is the association list of Client/Model.v (a value = (ordinal, 0)), the hint table its key list *)
+let table () =
+  let tb : (z * (nat * nat)) list ref = ref [] and hs : z list ref = ref [] and cur = ref "" in
+  let uniq_sorted (l : z list) : string =
+    let l = List.sort_uniq compare (List.map i64_of_z l) in
+    if l = [] then "-" else String.concat "," (List.map Int64.to_string l) in
+  iter_lines (fun l ->
+    match split_tab l with
+    | "Q" :: seq :: idx :: tab :: op :: key :: arg :: _ ->
+      if seq <> !cur then (cur := seq; tb := []; hs := []);
+      let k = zs key in
+      let res =
+        if tab = "r" then
+          (match op with
+           | "add" -> tb := tab_apply !tb (TAdd (k, (nat_of_int (int_of_string arg), O))); "-"
+           | "del" -> let r = (match lookup k !tb with Some _ -> "1" | None -> "0") in tb := tab_apply !tb (TDel k); r
+           | "get" -> (match lookup k !tb with Some (o, _) -> string_of_int (int_of_nat o) | None -> "none")
+           | "has" -> (match lookup k !tb with Some _ -> "1" | None -> "0")
+           | _ -> uniq_sorted (List.map fst !tb))
+        else
+          (match op with
+           | "add" -> hs := set_apply !hs (SAdd k); "-"
+           | "del" -> let r = if memz k !hs then "1" else "0" in hs := set_apply !hs (SDel k); r
+           | "get" -> if memz k !hs then "some" else "none"
+           | "has" -> if memz k !hs then "1" else "0"
+           | _ -> uniq_sorted !hs) in
+      Printf.printf "Q\t%s\t%s\t%s\n" seq idx res
+    | _ -> ())
+
 (* reqid: Z payload ok:<hex>|err (oracle), K id kind body ... -> id \t <64-bit pattern in hex> *)
 let reqid () =
   let gz : (String.t, String.t) Hashtbl.t = Hashtbl.create 64 in
@@ -340,5 +370,6 @@ let reqid () =
 let () =
   match Array.to_list Sys.argv with
   | _ :: "reqid" :: _ -> reqid ()
+  | _ :: "table" :: _ -> table ()
   | _ :: "enum" :: k0 :: k1 :: gz :: lim :: _ -> enum k0 k1 gz (int_of_string lim)
   | _ -> replay ()
